@@ -2115,12 +2115,16 @@ static ABT_bool xstream_set_new_rank(ABTI_global *p_global,
 static ABT_bool xstream_change_rank(ABTI_global *p_global,
                                     ABTI_xstream *p_xstream, int rank)
 {
+    ABTD_spinlock_acquire(&p_global->xstream_list_lock);
+
     if (p_xstream->rank == rank) {
-        /* No need to change the rank. */
+        /* No need to change the rank.  This check must be done while holding
+         * the lock; otherwise a concurrent ABT_xstream_set_rank() that gives
+         * the same rank to p_xstream makes the search below find p_xstream
+         * itself and wrongly report that rank is used by another ES. */
+        ABTD_spinlock_release(&p_global->xstream_list_lock);
         return ABT_TRUE;
     }
-
-    ABTD_spinlock_acquire(&p_global->xstream_list_lock);
 
     ABTI_xstream *p_next = p_global->p_xstream_head;
     /* Check if a certain rank is available. */
